@@ -133,6 +133,140 @@ Definition unix_recv := unix_recvv true.
 Definition strip_s (a : sresp) : sresp := match a with SBlock _ w => SBlock [] w | x => x end.
 Definition strip_r (a : rresp) : rresp := match a with KBlock _ w => KBlock [] w | x => x end.
 
+
+(* ==========================================================================================================
+   aclose() while calls are parked: a small LTS over both directions of one UNIXSocketStream
+   (_RawSocketMixin._wait_until_readable/_wait_until_writable/aclose), with the event loop's reader/writer
+   registrations and the done-callbacks of the wait futures (which run one cycle after the future is resolved).
+   pinned = true is the order of the pinned tree before commit e49bd95: aclose() closed the socket while it was
+   still registered and left remove_reader/remove_writer to the done-callbacks; pinned = false is HEAD:
+   unregister, then close; the callbacks skip the removal when _closing.
+   defer = true models uvloop: closing a socket object that is still registered only marks it closed, the
+   descriptor stays open (and usable) until the last registration is removed; defer = false is the selector
+   loop: the descriptor is closed at once and remove_reader/remove_writer on the closed socket object raises
+   (reported through the loop's exception handler when it happens in a callback).
+   ========================================================================================================== *)
+Inductive dir := DR | DS.
+Inductive cphase :=
+| CIdle                       (* no call in this direction *)
+| CRun (cancelled : bool)     (* inside receive()/send(), runnable (first iteration or woken) *)
+| CParked.                    (* suspended on the readiness future *)
+Inductive kans := AOk | ABlock | AErr.    (* the kernel's answer to recv()/send() while the descriptor is open *)
+
+Inductive cop :=
+| CBegin (d : dir)            (* a task calls receive() / send(); runs up to its checkpoint *)
+| CStep (d : dir) (a : kans)  (* the task runs one loop iteration: kernel call answered a *)
+| CReady (d : dir)            (* the loop's reader/writer callback fires: f.set_result(None) *)
+| CCancel (d : dir)           (* the parked task is cancelled: f.cancel() *)
+| CCallback (d : dir)         (* the done-callback of the wait future runs *)
+| CClose.                     (* a third task calls aclose() *)
+
+Inductive cres := CNone | CEnd (r : ures) | CRejected.
+
+Record cst := mkc {
+  c_closing : bool;           (* stream._closing *)
+  c_sclosed : bool;           (* raw_socket.close() was called *)
+  c_fdopen : bool;            (* the descriptor is really open *)
+  c_nclose : nat;             (* number of raw_socket.close() calls *)
+  c_regr : bool; c_regw : bool;     (* registered with loop.add_reader / add_writer *)
+  c_phr : cphase; c_phs : cphase;
+  c_cbr : bool; c_cbw : bool;       (* done-callback scheduled, not yet run *)
+  c_errs : nat;               (* calls of the loop's exception handler *)
+  c_cwr : bool                (* ghost: close() was performed while a registration existed *)
+}.
+
+Definition cinit : cst := mkc false false true 0 false false CIdle CIdle false false 0 false.
+
+Definition reg (s : cst) (d : dir) := match d with DR => c_regr s | DS => c_regw s end.
+Definition ph (s : cst) (d : dir) := match d with DR => c_phr s | DS => c_phs s end.
+Definition cb (s : cst) (d : dir) := match d with DR => c_cbr s | DS => c_cbw s end.
+
+Definition set_reg (s : cst) (d : dir) (v : bool) : cst :=
+  match d with
+  | DR => mkc (c_closing s) (c_sclosed s) (c_fdopen s) (c_nclose s) v (c_regw s) (c_phr s) (c_phs s) (c_cbr s) (c_cbw s) (c_errs s) (c_cwr s)
+  | DS => mkc (c_closing s) (c_sclosed s) (c_fdopen s) (c_nclose s) (c_regr s) v (c_phr s) (c_phs s) (c_cbr s) (c_cbw s) (c_errs s) (c_cwr s)
+  end.
+Definition set_ph (s : cst) (d : dir) (v : cphase) : cst :=
+  match d with
+  | DR => mkc (c_closing s) (c_sclosed s) (c_fdopen s) (c_nclose s) (c_regr s) (c_regw s) v (c_phs s) (c_cbr s) (c_cbw s) (c_errs s) (c_cwr s)
+  | DS => mkc (c_closing s) (c_sclosed s) (c_fdopen s) (c_nclose s) (c_regr s) (c_regw s) (c_phr s) v (c_cbr s) (c_cbw s) (c_errs s) (c_cwr s)
+  end.
+Definition set_cb (s : cst) (d : dir) (v : bool) : cst :=
+  match d with
+  | DR => mkc (c_closing s) (c_sclosed s) (c_fdopen s) (c_nclose s) (c_regr s) (c_regw s) (c_phr s) (c_phs s) v (c_cbw s) (c_errs s) (c_cwr s)
+  | DS => mkc (c_closing s) (c_sclosed s) (c_fdopen s) (c_nclose s) (c_regr s) (c_regw s) (c_phr s) (c_phs s) (c_cbr s) v (c_errs s) (c_cwr s)
+  end.
+Definition set_fdopen (s : cst) (v : bool) : cst :=
+  mkc (c_closing s) (c_sclosed s) v (c_nclose s) (c_regr s) (c_regw s) (c_phr s) (c_phs s) (c_cbr s) (c_cbw s) (c_errs s) (c_cwr s).
+Definition add_err (s : cst) : cst :=
+  mkc (c_closing s) (c_sclosed s) (c_fdopen s) (c_nclose s) (c_regr s) (c_regw s) (c_phr s) (c_phs s) (c_cbr s) (c_cbw s) (S (c_errs s)) (c_cwr s).
+
+(* a deferred close (uvloop) completes when the last registration goes away *)
+Definition finish_close (s : cst) : cst :=
+  if andb (c_sclosed s) (andb (c_fdopen s) (negb (orb (c_regr s) (c_regw s)))) then set_fdopen s false else s.
+
+(* loop.remove_reader/remove_writer(raw_socket); Some = it worked, None = it raised (selector loop, closed socket object) *)
+Definition loop_remove (defer : bool) (s : cst) (d : dir) : option cst :=
+  if andb (c_sclosed s) (negb defer) then None else Some (finish_close (set_reg s d false)).
+
+(* aclose(): resolve the wait future of a parked call *)
+Definition wake_parked (s : cst) (d : dir) : cst :=
+  match ph s d with CParked => set_cb (set_ph s d (CRun false)) d true | _ => s end.
+
+Definition cstep (pinned defer : bool) (s : cst) (o : cop) : cst * cres :=
+  match o with
+  | CBegin d =>
+      match ph s d with CIdle => (set_ph s d (CRun false), CNone) | _ => (s, CRejected) end
+  | CStep d a =>
+      match ph s d with
+      | CRun c =>
+          if cb s d then (s, CRejected)            (* the future's done-callback runs before the task's wake-up *)
+          else if c then (set_ph s d CIdle, CEnd UCancelled)
+          else match (if c_fdopen s then a else AErr) with
+               | AOk => (set_ph s d CIdle, CEnd UDone)
+               | AErr => (set_ph s d CIdle, CEnd (if c_closing s then UClosed else UBroken))
+               | ABlock => (set_ph (set_reg s d true) d CParked, CNone)
+               end
+      | _ => (s, CRejected)
+      end
+  | CReady d =>
+      match ph s d with
+      | CParked => if reg s d then (set_cb (set_ph s d (CRun false)) d true, CNone) else (s, CRejected)
+      | _ => (s, CRejected)
+      end
+  | CCancel d =>
+      match ph s d with
+      | CParked => (set_cb (set_ph s d (CRun true)) d true, CNone)
+      | _ => (s, CRejected)
+      end
+  | CCallback d =>
+      if negb (cb s d) then (s, CRejected) else
+      let s1 := set_cb s d false in
+      if orb pinned (negb (c_closing s1)) then
+        match loop_remove defer s1 d with
+        | Some s2 => (s2, CNone)
+        | None => (add_err s1, CNone)              (* "Exception in callback" *)
+        end
+      else (s1, CNone)
+  | CClose =>
+      if c_closing s then (s, CNone) else
+      let s1 := mkc true (c_sclosed s) (c_fdopen s) (c_nclose s) (c_regr s) (c_regw s) (c_phr s) (c_phs s)
+                    (c_cbr s) (c_cbw s) (c_errs s) (c_cwr s) in
+      let s3 :=
+        if c_sclosed s1 then s1 else
+        let s2 := if pinned then s1 else
+                    match loop_remove defer s1 DR with
+                    | Some x => match loop_remove defer x DS with Some y => y | None => x end
+                    | None => s1
+                    end in
+        let registered := orb (c_regr s2) (c_regw s2) in
+        mkc true true (andb defer registered) (S (c_nclose s2)) (c_regr s2) (c_regw s2) (c_phr s2) (c_phs s2)
+            (c_cbr s2) (c_cbw s2) (c_errs s2) (orb (c_cwr s2) registered) in
+      (wake_parked (wake_parked s3 DR) DS, CNone)
+  end.
+
+Definition cstep_head := cstep false.
+
 (* ---- observations and codec ---- *)
 Definition ures_obs (r : ures) : list Z :=
   match r with
@@ -189,9 +323,41 @@ Fixpoint decode_rscript (fuel : nat) (l : list Z) : list rresp :=
       end
   end.
 
+
+(* ---- codec of the close LTS: case = 2 :: defer :: pairs (code, arg);
+   0 d = Begin, 1 (4*d + a) = Step d a, 2 d = Ready, 3 d = Cancel, 4 d = Callback, 5 _ = Close   (d: 0 = receive, 1 = send;
+   a: 0 = Ok, 1 = would-block, 2 = Err) *)
+Definition decode_dir (z : Z) : dir := if Z.eqb z 0 then DR else DS.
+Definition decode_cop (c a : Z) : cop :=
+  match c with
+  | 0 => CBegin (decode_dir a)
+  | 1 => CStep (decode_dir (a / 4)) (match a mod 4 with 0 => AOk | 1 => ABlock | _ => AErr end)
+  | 2 => CReady (decode_dir a)
+  | 3 => CCancel (decode_dir a)
+  | 4 => CCallback (decode_dir a)
+  | _ => CClose
+  end%Z.
+Fixpoint decode_cops (l : list Z) : list cop :=
+  match l with c :: a :: r => decode_cop c a :: decode_cops r | _ => [] end.
+Definition cphase_code (p : cphase) : Z := match p with CIdle => 0 | CRun false => 1 | CRun true => 2 | CParked => 3 end%Z.
+Definition cres_obs (r : cres) : Z :=
+  match r with
+  | CNone => 11 | CRejected => 9
+  | CEnd UDone => 0 | CEnd UCancelled => 2 | CEnd UClosed => 5 | CEnd UBroken => 6 | CEnd _ => 15
+  end%Z.
+Definition cobserve (s : cst) (r : cres) : list Z :=
+  [cres_obs r; bz (c_closing s); bz (c_sclosed s); bz (c_fdopen s); bz (c_regr s); bz (c_regw s); nz (c_nclose s);
+   nz (c_errs s); cphase_code (c_phr s); cphase_code (c_phs s); bz (c_cbr s); bz (c_cbw s); bz (c_cwr s)].
+Fixpoint crun_obs (defer : bool) (s : cst) (ops : list cop) : list Z :=
+  match ops with
+  | [] => []
+  | o :: r => let '(s1, out) := cstep false defer s o in cobserve s1 out ++ crun_obs defer s1 r
+  end.
+
 (* case = kind :: cancel0 :: busy :: closing0 :: mx :: n :: item(n) ++ script    (kind 0 = send, 1 = receive) *)
 Definition run_case (c : list Z) : list Z :=
   match c with
+  | 2%Z :: df :: r => crun_obs (zb df) cinit (decode_cops r)
   | kind :: c0 :: b :: cl :: mx :: n :: r =>
       let item := firstn (zn n) r in
       let sc := skipn (zn n) r in
